@@ -80,11 +80,13 @@ class Pages(Files):
         if_modified_since: str = environ.get("HTTP_IF_MODIFIED_SINCE", "")
         filepath = self.ensure_absolute_path(decode_path_info(environ))
         stat_result, is_file = self.check_path_is_file(filepath)
+        html_fallback = False
         if (
             stat_result is None  # filepath is not exist
             and filepath is not None  # Just for type check
             and not filepath.endswith(".html")  # filepath is not a html file
         ):
+            html_fallback = True  # only a regular file may answer for `path + ".html"`
             filepath += ".html"
             stat_result, is_file = self.check_path_is_file(filepath)
 
@@ -94,9 +96,11 @@ class Pages(Files):
                 return self.file_response(
                     filepath, stat_result, if_none_match, if_modified_since
                 )(environ, start_response)
-            if stat.S_ISDIR(stat_result.st_mode) and not decode_path_info(
-                environ
-            ).endswith("/"):
+            if (
+                stat.S_ISDIR(stat_result.st_mode)
+                and not html_fallback
+                and not decode_path_info(environ).endswith("/")
+            ):
                 url = URL(environ=environ)
                 url = url.replace(scheme="", path=url.path + "/")
                 return RedirectResponse(url)(environ, start_response)
